@@ -260,12 +260,18 @@ pub fn run(prop: PathProp, tier: Tier, seed: u64) -> i32 {
         c02_histories(&ctx, tier, seed);
         ctx.require("history_paths_after_problem_change");
         twins(PathProp::C02, &ctx, tier, seed);
+        c02_special(&ctx, tier, seed);
+        ctx.require("deep_tree_paths");
+        ctx.require("overhanging_goal_paths");
         ctx.require("twin_paths[zero-weight-component]");
         ctx.require("twin_paths[antipodal-quaternion]");
     }
     if prop == PathProp::C03 {
         c03_histories(&ctx, tier, seed);
         ctx.require("history_paths_from_later_solves");
+        c03_timed(&ctx, tier, seed);
+        ctx.require("timed_paths");
+        ctx.require("timed_calls_cut_short_by_the_clock");
     }
     if prop == PathProp::C05 {
         c05_histories(&ctx, tier, seed);
@@ -676,6 +682,188 @@ fn twins(prop: PathProp, ctx: &Ctx, tier: Tier, seed: u64) {
                     }
                 }
             });
+            i += shards;
+        }
+        ctx.merge(b);
+    });
+}
+
+/// C03 under a clock that advances with every validity query and sampler call (the C06 cost
+/// model): a first `solve` whose budget runs out in the middle of an iteration - typically in
+/// the middle of a long motion check - followed by further `solve` calls on the same planner
+/// with a generous budget. Whatever the first call left in the tree, every segment of every
+/// path returned later must have been checked along its whole length.
+fn c03_timed(ctx: &Ctx, tier: Tier, seed: u64) {
+    use crate::monitor::SampleMode;
+    const TICK: u64 = 1_000;
+    let n = tier.pick(400, 40_000);
+    let shards = 64;
+    let hs = hosts(PathProp::C03);
+    par_shards(shards, crate::util::n_threads(), |sh| {
+        let mut b = Batch::default();
+        let mut i = sh;
+        while i < n {
+            let mut r = Sm::derive(seed, &[313, i as u64]);
+            let opts = GenOpts { nonconvex: false, ..GenOpts::default() };
+            let mut cfg = cfg_for(&mut r, i, &hs, 0.5, &opts, 400, 0.0);
+            // the tree planners keep their tree between solve calls; PRM's query is stateless
+            cfg.planner = [PKind::Rrt, PKind::Connect, PKind::Star, PKind::Connect][(i / 6) % 4];
+            let mut sc = make_scenario(&mut r, &cfg);
+            // long motion checks: at least ~80 queries per full step, at most ~600
+            let lvs = crate::refm::ref_lvs(&sc.problem.spec).max(1e-12);
+            let per_motion = (sc.params.step_limit().min(sc.problem.spec.diameter()) / (0.1 * lvs)).ceil().max(1.0);
+            let k = if per_motion < 80.0 { 80.0 / per_motion } else if per_motion > 600.0 { 600.0 / per_motion } else { 1.0 };
+            sc.params.max_distance *= k;
+            sc.params.search_radius *= k;
+            b.evaluations += 1;
+            with_kit!(sc.problem.spec, K, kit => {
+                crate::watch::set_case(sc.to_json());
+                oxmpl::verif::arm(0);
+                let Ok(mut d) = crate::drv::Drv::<K>::new(&kit, &sc.params, 0.0) else { continue };
+                d.log.borrow_mut().budget = 600_000;
+                let Ok(inst) = d.install(&sc.problem, SampleMode::PlannerRng) else { continue };
+                if d.setup(inst) != Res::Done { continue }
+                let Ok(ev) = WorldEval::<K>::new(&kit, &sc.problem.world) else { continue };
+                {
+                    let mut l = d.log.borrow_mut();
+                    l.tick_sample = TICK;
+                    l.tick_valid = TICK;
+                }
+                // budgets in ticks: a few that end inside the first iterations, then generous ones
+                let budgets = [30 + r.below(400) as u64, 100 + r.below(3_000) as u64, 15_000, 30_000];
+                for (ci, t) in budgets.iter().enumerate() {
+                    let q0 = d.log.borrow().n_valid;
+                    let res = d.solve_ns(t * TICK, true);
+                    {
+                        let mut l = d.log.borrow_mut();
+                        l.tick_sample = TICK;
+                        l.tick_valid = TICK;
+                    }
+                    let used = d.log.borrow().n_valid - q0;
+                    if matches!(res, Res::Err(ErrKind::Timeout)) && ci < 2 && used > 0 {
+                        b.count("timed_calls_cut_short_by_the_clock", 1);
+                    }
+                    match &res {
+                        Res::Path(p) => {
+                            b.count("timed_paths", 1);
+                            if ci >= 1 { b.count("timed_paths_after_an_interrupted_call", 1); }
+                            if p.len() >= 3 { b.distinct.insert(hash_path(p)); }
+                            let log = d.log.borrow();
+                            let acc = Accepted::<K>::from_log(&kit, &ev.sp, &log.recs, &sc.problem.start);
+                            let mut worst = 0.0f64;
+                            for (sig, det) in path_coverage(&kit, &ev.sp, &ev, &acc, p, &mut worst) {
+                                let mut v = sc.to_json();
+                                v["property"] = json!("C03");
+                                v["kind"] = json!("timed");
+                                v["budgets_in_ticks"] = json!(budgets);
+                                ctx.violate(&format!("{sig}:{}:clock-runs-out-mid-iteration", sc.params.kind.name()), format!("{det} [solve budgets {budgets:?} ticks, 1 tick per validity query and sampler call; path from call {ci}]"), v);
+                            }
+                            b.max("worst_gap_over_lvs(timed)", worst);
+                            break;
+                        }
+                        Res::Panic { .. } | Res::Budget => break,
+                        _ => {}
+                    }
+                }
+            });
+            i += shards;
+        }
+        ctx.merge(b);
+    });
+}
+
+/// C02 in two corners. (a) Very deep trees: thousands of nodes on the solution branch (step =
+/// extent / 4500..9000, every sample the goal), so that the path has thousands of states - it must
+/// still begin at the start. (b) Goal regions that overhang the sampling box: the centre lies
+/// outside the bounds, goal samples sit on the rim; the last state must still satisfy the goal.
+fn c02_special(ctx: &Ctx, tier: Tier, seed: u64) {
+    use super::hist::{run_history, History, Op};
+    use crate::spec::{Comp, Spec, Wrap, CK};
+    use crate::world::{GoalMode, GoalSpec, PParams, Problem, World};
+    let n_deep = tier.pick(2, 16);
+    let n_over = tier.pick(600, 30_000);
+    let shards = 64;
+    par_shards(shards, crate::util::n_threads(), |sh| {
+        let mut b = Batch::default();
+        let mut i = sh;
+        while i < n_deep + n_over {
+            let mut r = Sm::derive(seed, &[222, i as u64]);
+            if i < n_deep {
+                let kind = [PKind::Rrt, PKind::Star][i % 2];
+                let dim = 1 + (i / 2) % 2;
+                let ext = *r.pick(&[1.0, 100.0, 1e4]);
+                let spec = Spec::plain(Wrap::R, CK::R { n: dim, bounds: Some(vec![(0.0, ext); dim]) }, None);
+                let depth = 4_500 + r.below(4_500) as u64;
+                let step = ext / depth as f64;
+                let start = vec![0.0; dim];
+                let mut centre = vec![0.0; dim];
+                centre[0] = ext;
+                let goal = GoalSpec { centre, radius: step * 0.75, mode: GoalMode::Centre, fail_at: None, window: None };
+                let problem = Problem { spec: spec.clone(), world: World::default(), start, extra_starts: vec![], goal, infeasible: None, tags: vec!["deep-tree".into()] };
+                let params = PParams { kind, max_distance: step, goal_bias: 1.0, search_radius: step * *r.pick(&[0.5, 1.5]), connection_radius: step, seed: Some(r.next_u64()) };
+                let h = History { problems: vec![problem], params, prm_samples: 0, ops: vec![Op::Setup(0), Op::Solve(depth + 50)], uniform_fail_at: None, starts_override: None, script: None, prm_build_override: None };
+                b.evaluations += 1;
+                with_kit!(spec, K, kit => {
+                    if let Ok((_, recs)) = run_history::<K>(&kit, &h, false, 50_000_000) {
+                        if let (Some(Res::Path(p)), Ok(sp)) = (recs.last().map(|c| &c.res), kit.build()) {
+                            b.count("deep_tree_paths", 1);
+                            b.max("deepest_path_states", p.len() as f64);
+                            b.distinct.insert(hash_path(p));
+                            for (sig, det) in path_endpoints(&kit, &sp, &h.problems[0], p) {
+                                let mut v = h.to_json();
+                                v["property"] = json!("C02");
+                                ctx.violate(&format!("{sig}:{}:deep-tree", kind.name()), format!("{det} [path of {} states; tree depth {depth}]", p.len()), v);
+                            }
+                        } else {
+                            b.count("deep_tree_runs_without_path", 1);
+                        }
+                    }
+                });
+            } else {
+                let cfg = cfg_for(&mut r, i, &[Hostility::Free, Hostility::Free, Hostility::Plain], 0.0, &GenOpts::default(), 600, 0.0);
+                let mut sc = make_scenario(&mut r, &cfg);
+                let spec = sc.problem.spec.clone();
+                let offs = spec.offsets();
+                // a bounded real-vector component with at least two coordinates
+                let cands: Vec<usize> = (0..spec.comps.len()).filter(|c| matches!(&spec.comps[*c].kind, CK::R { n, bounds: Some(bs) } if *n >= 2 && bs.iter().all(|(l, h)| l.is_finite() && h.is_finite() && h > l)) && spec.eff_weight(*c) > 1e-6).collect();
+                if !cands.is_empty() {
+                    let ci = *r.pick(&cands);
+                    let (Comp { kind: CK::R { n, bounds: Some(bs) }, .. }, w) = (&spec.comps[ci], spec.eff_weight(ci)) else { unreachable!() };
+                    let j = r.below(*n);
+                    let k = (j + 1 + r.below(*n - 1)) % *n;
+                    let rad = sc.problem.goal.radius / w;
+                    let mut c = sc.problem.goal.centre.clone();
+                    let up = r.bool(0.5);
+                    c[offs[ci] + j] = if up { bs[j].1 + rad * r.range(0.5, 0.9) } else { bs[j].0 - rad * r.range(0.5, 0.9) };
+                    c[offs[ci] + k] = 0.5 * (bs[k].0 + bs[k].1);
+                    let rim = |s: f64| {
+                        let mut g = c.clone();
+                        g[offs[ci] + k] += s * 0.93 * rad;
+                        g
+                    };
+                    sc.problem.goal.centre = c.clone();
+                    sc.problem.goal.mode = GoalMode::List(vec![rim(1.0), rim(-1.0), c.clone(), rim(0.6)]);
+                    sc.problem.tags.push("goal-overhangs-the-box".into());
+                    if sc.params.kind != PKind::Prm {
+                        sc.params.goal_bias = *r.pick(&[0.05, 0.3, 0.5]);
+                    }
+                    b.evaluations += 1;
+                    with_kit!(spec, K, kit => {
+                        if let Ok((_, Res::Path(p))) = exec::<K>(&kit, &sc) {
+                            if let Ok(sp) = kit.build() {
+                                b.count("overhanging_goal_paths", 1);
+                                b.count(&format!("overhanging_goal_paths[{}]", sc.params.kind.name()), 1);
+                                if p.len() >= 3 { b.distinct.insert(hash_path(&p)); }
+                                for (sig, det) in path_endpoints(&kit, &sp, &sc.problem, &p) {
+                                    let mut v = sc.to_json();
+                                    v["property"] = json!("C02");
+                                    ctx.violate(&format!("{sig}:{}:goal-overhangs-the-box", sc.params.kind.name()), det, v);
+                                }
+                            }
+                        }
+                    });
+                }
+            }
             i += shards;
         }
         ctx.merge(b);
